@@ -118,7 +118,7 @@ def c04_instances(tier):
             for op in ("sub", "mul", "div", "axpy"):
                 insts.append(ew_inst(op, a, b))
         for op in EW_OPS:
-            insts.append(ew_inst(op, [2, 2], [2], full=True))
+            insts.append(ew_inst(op, [2], [1], full=True))
     return insts
 
 
